@@ -34,7 +34,7 @@ BOUNDS = {"quick": "volumes up to 3x3x2 (+ 5x1x2), 1-3 channels, chunk sizes fro
                    "uint8/16/32/64/float32 identity, int16->uint8, uint16->float32, uint8->uint32, scaled(0.5*v+10)->uint8; "
                    "encodings raw / compressed_segmentation (block 2,2,2 and 2,2,1); layouts deep, flat, gzip, sharded(1,1,0); "
                    "RGB volumes 3x2x2, 2x3x1, 2x2x2, 1x1x3 in both memory orders through volume_file_to_precomputed",
-          "thorough": "volumes up to 5x4x3, more dtype pairs"}
+          "thorough": "volumes up to 5x4x3; every input type (8 integer types, float32, float64) into every target type, rotating layouts, loading modes and chunk sizes"}
 OUTSIDE = ["nibabel file parsing and its slope/intercept arithmetic", "real gzip", "JPEG", "record dtypes other than one-byte R,G,B"]
 
 
@@ -80,6 +80,21 @@ def _configs(tier, seed):
         out += [_cfg((5, 4, 3), (2, 2, 2), "uint16", "uint16", layout="sharded"), _cfg((4, 3, 3, 2), (4, 2, 1), "int32", "uint16"),
                 _cfg((3, 3, 3), (2, 2, 2), "float64", "uint8", cost=8), _cfg((4, 2, 2), (2, 2, 2), "uint64", "uint64", enc="compressed_segmentation", block=(2, 2, 2), cost=30, wall=1500),
                 _cfg((5, 2, 3), (4, 4, 4), "int8", "uint64", full=False, layout="flat")]
+    if tier == "thorough":
+        # every input type against every Neuroglancer target type, rotating layouts / loading modes / chunk sizes
+        ins = ["uint8", "int8", "uint16", "int16", "uint32", "int32", "uint64", "int64", "float32", "float64"]
+        outs = ["uint8", "uint16", "uint32", "uint64", "float32"]
+        n = 0
+        for i_ in ins:
+            for o_ in outs:
+                n += 1
+                if i_ in ("float32", "float64") and o_ == "float32" and i_ != o_:
+                    continue          # float64 -> float32 narrowing: subnormal results are outside the exact rounding model
+                wide_to_f32 = o_ == "float32" and i_ in ("uint32", "int32", "uint64", "int64")
+                # (the rounding model case-splits on the bit length of every voxel: one or two voxels for those pairs)
+                shape_ = ((1, 1, 1), (2, 1, 1))[n % 2] if wide_to_f32 else ((3, 2, 2), (2, 3, 1), (1, 2, 3), (2, 2, 2, 2))[n % 4]
+                out.append(_cfg(shape_, (1, 1, 1) if wide_to_f32 else ((2, 2, 2), (1, 2, 1), (4, 4, 4))[n % 3], i_, o_,
+                                layout=("deep", "flat", "gzip", "sharded")[n % 4], full=bool(n % 2), cost=3))
     out.append(dict(harness="scaling", o="uint8", cost=1))
     out.append(dict(harness="scaling", o="uint16", cost=1))
     out.append(dict(harness="scaling", o="float32", cost=1))
